@@ -65,6 +65,8 @@ def config_labels(case):
         f"scaling:{sc}",
         f"family:{case['spec'].get('family', 'nlp').split(':')[0]}",
     ]
+    if "magnified" in case["spec"].get("family", ""):
+        labs.append("magnified")
     labs += [f"row:{k}" for k in rows]
     labs += [f"var:{k}" for k in vars_]
     return labs
@@ -98,12 +100,13 @@ def kkt_violations(spec, x, y, d, vw, cw, ow, tau=TAU, alpha=ALPHA):
     c = r.c(x)
     J = r.J(x)
     g = r.g(x)
+    xs_ = x - r.shift  # magnitudes of the terms actually added (rounding slack)
     fv = np.ldexp(1.0, vw)  # 2^vw
     fc = np.ldexp(1.0, cw)
     # (2) feasibility of rows
     for i in range(m):
         dist = max(r.cl[i] - c[i], c[i] - r.cu[i], 0.0)
-        tol = slack(tau / fc[i], r.A[i] * x, r.b[i])
+        tol = slack(tau / fc[i], r.A[i] * xs_, r.b[i])
         if dist > tol:
             out.append(("row-feasibility", f"row {i} ({r.row_kind(i)}): c={c[i]!r} not in [{r.cl[i]},{r.cu[i]}] by {dist:.3e} > {tol:.3e} (cw={cw[i]})"))
     # (3) stationarity
@@ -118,7 +121,7 @@ def kkt_violations(spec, x, y, d, vw, cw, ow, tau=TAU, alpha=ALPHA):
             continue
         ytol = slack(tau * fc[i] / 2.0**ow)
         near = (tau + alpha) / fc[i]
-        near = slack(near, r.A[i] * x, r.b[i])
+        near = slack(near, r.A[i] * xs_, r.b[i])
         if y[i] > ytol and not (np.isfinite(r.cu[i]) and abs(c[i] - r.cu[i]) <= near):
             out.append(("y-sign", f"row {i} ({r.row_kind(i)}): y={y[i]:.3e} > {ytol:.3e} but c={c[i]!r} not at upper bound {r.cu[i]} (dist {abs(c[i]-r.cu[i]):.3e} > {near:.3e})"))
         if y[i] < -ytol and not (np.isfinite(r.cl[i]) and abs(c[i] - r.cl[i]) <= near):
